@@ -265,6 +265,7 @@ pub fn record(args: &Args) {
         };
         let steps = 2 + rng.below(24);
 
+        let outcome = guarded(std::panic::AssertUnwindSafe(|| {
         for _ in 0..steps {
             match rng.below(12) {
                 0..=4 => {
@@ -326,6 +327,13 @@ pub fn record(args: &Args) {
                     }
                 }
             }
+        }
+
+        }));
+
+        if let Err(p) = outcome {
+            // a panic of the code under test is data: the history ends with an event nothing explains
+            chain.push(json!({"op": "panic", "arg": [], "res": p}));
         }
 
         if corrupt > 0 && line + 1 == corrupt {
